@@ -482,7 +482,16 @@ def config_listing(V):
     return [("the listing names exactly the bundled Dir/file.ini files (what --config resolves in the bundled directory)", listed == want)]
 
 
-FUNCS = {"exit_status": exit_status, "config_listing": config_listing, "internal_default": internal_default, "main_cli": main_cli, "read_config": read_config, "vela_config": vela_config, "sections_missing": sections_missing, "cli_binding": cli_binding}
+def regions(V, **params):
+    """what the resolved arena_cache_size MEANS depends on the memory mode: a hard limit of its own region when the cache has a port of its own
+    (dedicated SRAM, spilling), only the scheduler's target otherwise - the per-region limits the compiler enforces follow that rule
+    (harness/c02.py regions: the real get_region / mem_type_size / get_mem_limits_for_regions)"""
+    from harness import c02
+
+    return c02.regions(V, **params)
+
+
+FUNCS = {"regions": regions, "exit_status": exit_status, "config_listing": config_listing, "internal_default": internal_default, "main_cli": main_cli, "read_config": read_config, "vela_config": vela_config, "sections_missing": sections_missing, "cli_binding": cli_binding}
 
 
 def instances(tier, seed):
@@ -500,6 +509,11 @@ def instances(tier, seed):
             out.append(dict(key="sections_missing/%s/%s" % (accel, which), fn="sections_missing", params=dict(which=which, accel=accel)))
     out.append(dict(key="cli_binding", fn="cli_binding", params={}))
     out.append(dict(key="exit_status", fn="exit_status", params={}))
+    from harness import c02
+
+    for inst in c02.instances(tier, seed):
+        if inst["fn"] == "regions":
+            out.append(dict(key=inst["key"], fn="regions", params=inst["params"]))
     out.append(dict(key="config_listing", fn="config_listing", params={}))
     for config in (None, "Arm/vela.ini", "/abs/dir/my.ini", "../other/dir/my.ini", "my.ini"):
         for sysc in (None, "Ethos_U65_High_End"):
